@@ -27,6 +27,20 @@ StaleLit == {[syms |-> <<65, 66, 256, 257>>, shape |-> "balanced"],
              [syms |-> <<256, 65, 66, 67, 257, 258, 264, 285>>, shape |-> "chain"]}
 StaleDist == {[syms |-> <<>>, shape |-> "none"], [syms |-> <<0>>, shape |-> "single"], [syms |-> <<0, 3>>, shape |-> "balanced"]}
 WideDistPlus == WideDist \cup {[syms |-> <<>>, shape |-> "none"]}
+\* biased towards matches whose distance code words are long (11..15 bits) and carry many extra bits
+LongLit == {[syms |-> <<65, 66, 67, 68, 69, 70, 0, 255, 257, 258, 265, 269, 273, 284, 285, 256>>, shape |-> "chain"],
+            [syms |-> <<0, 1, 2, 3, 10, 32, 65, 66, 97, 98, 99, 100, 101, 127, 128, 200, 254, 255, 256, 257, 258, 259,
+                        260, 261, 262, 263, 264, 268, 272, 280, 284, 285>>, shape |-> "balanced"]}
+               \cup {w \in WideLit : w.name \in {"flat89_asc", "edge_eob", "w11_desc"}}
+LongDistC == {<<10, 0>>, <<11, 15>>, <<12, 0>>, <<13, 63>>, <<16, 127>>, <<18, 255>>, <<20, 511>>, <<22, 1023>>, <<24, 0>>,
+              <<25, 2047>>, <<26, 4095>>, <<28, 0>>, <<29, 8191>>, <<0, 0>>, <<5, 0>>}
+LongLen == {<<257, 0>>, <<258, 0>>, <<265, 1>>, <<269, 3>>, <<273, 7>>, <<280, 15>>, <<284, 30>>, <<285, 0>>}
+\* far matches made of the longest code words with the most extra bits (the bit budget of one
+\* refill in a decoder's fast loop: length extra + distance code + distance extra)
+FarLit == {w \in WideLit : w.name \in {"flat89_asc", "flat89_desc", "edge_asc"}}
+FarDist == {w \in WideDist : w.name = "dlong_asc"}
+FarDistC == {<<28, 0>>, <<28, 4095>>, <<29, 8191>>, <<29, 1>>, <<27, 4000>>, <<26, 4095>>, <<25, 2047>>, <<24, 0>>, <<0, 0>>}
+FarLen == {<<284, 30>>, <<284, 0>>, <<283, 17>>, <<281, 31>>, <<280, 15>>, <<276, 9>>, <<273, 7>>, <<285, 0>>, <<257, 0>>}
 SmallLen == {<<257, 0>>, <<285, 0>>}
 SmallDistC == {<<0, 0>>, <<2, 0>>}
 
